@@ -21,6 +21,19 @@ fn check(acc: &mut Acc, s: &dyn Subject, case: &Case, src: Source, script: Scrip
 }
 
 fn builtin(acc: &mut Acc, s: &dyn Subject, case: &Case) {
+    // built-in error types fed by the second value source (non-finite floats, duplicate keys, ...)
+    for (name, r) in s.run_ov_builtins(&case.payload) {
+        if let Err(msg) = r {
+            let site = msg.rsplit(" at ").next().unwrap_or("?").to_string();
+            acc.violation(
+                format!("C12/panic/{name}/second-value-source/{site}"),
+                "deserialize panicked under a built-in error type fed by the second value source",
+                json!({"subject": s.name(), "payload": case.payload, "payload_shown": case.payload.show(), "source": "ov", "script": "Break", "error_type": name, "panic": msg}),
+            );
+        }
+        acc.count("builtin_error_type_runs_second_source");
+        acc.eval();
+    }
     if !case.payload.json_representable() {
         return;
     }
@@ -80,6 +93,14 @@ pub fn child(reg: &Registry, stack_mib: usize, progress: &str) -> i32 {
                             n.fetch_add(1, std::sync::atomic::Ordering::Relaxed);
                             if let Outcome::Panic(m) = &r.outcome {
                                 panics.push(format!("{}|{}|{:?}|{}", s.name(), pname, script, m));
+                            }
+                            if si == 0 {
+                                for (name, r) in s.run_ov_builtins(p) {
+                                    n.fetch_add(1, std::sync::atomic::Ordering::Relaxed);
+                                    if let Err(m) = r {
+                                        panics.push(format!("{}|{}|{name} via second source|{}", s.name(), pname, m));
+                                    }
+                                }
                             }
                             if p.json_representable() && si < 2 {
                                 let j = p.to_json();
@@ -227,7 +248,7 @@ pub fn run(ctx: &Ctx, reg: &Registry) -> i32 {
         acc,
         Finish {
             level: "fault_enumeration",
-            rule: "every catalogue (+generated) subject x hostile generated payloads (wrong kinds at every position, arity faults, duplicate keys, non-finite floats, non-canonical numbers, payloads generated for a different type) x answer scripts (Continue, Break, random 3/4 and 1/2) x both value sources x built-in error types, each call under catch_unwind; plus child processes running every subject on eight depth-128 nestings on 2 MiB and 8 MiB thread stacks, whose termination status is observed. Non-trivial = payload carries at least one injected fault or produced a report; distinct = (subject, fault signature, trace shape).".into(),
+            rule: "every catalogue (+generated) subject x hostile generated payloads (wrong kinds at every position, arity faults, duplicate keys, non-finite floats, non-canonical numbers, payloads generated for a different type) x answer scripts (Continue, Break, random 3/4 and 1/2) x both value sources x built-in error types (JsonError / QueryParamError, through serde_json AND through the second value source), each call under catch_unwind; plus child processes running every subject on eight depth-128 nestings on 2 MiB and 8 MiB thread stacks, whose termination status is observed. Non-trivial = payload carries at least one injected fault or produced a report; distinct = (subject, fault signature, trace shape).".into(),
             exhaustive: false,
             assumptions: vec!["depth is limited to 128 (serde_json's own parsing limit) and stacks to >= 2 MiB (Rust's default thread stack)".into()],
         },
